@@ -147,6 +147,44 @@ func init() {
 	ops["hverify"] = func(a []string) string {
 		return runVerifier(control.FileHash{Algorithm: arg(a, 0), Hash: arg(a, 1)}, a[3:])
 	}
+	// hverify2 alg hashA hashB dataA dataB: BOTH verifiers are created before either stream is written; the streams
+	// are written alternately, one byte-run at a time; each verifier answers for its own stream only
+	ops["hverify2"] = func(a []string) string {
+		fa := control.FileHash{Algorithm: arg(a, 0), Hash: arg(a, 1), Filename: "a"}
+		fb := control.FileHash{Algorithm: arg(a, 0), Hash: arg(a, 2), Filename: "b"}
+		va, err := fa.Verifier()
+		if err != nil {
+			return "error"
+		}
+		vb, err := fb.Verifier()
+		if err != nil {
+			return "error"
+		}
+		da, db := []byte(arg(a, 3)), []byte(arg(a, 4))
+		for len(da) > 0 || len(db) > 0 {
+			k := 7
+			if k > len(da) {
+				k = len(da)
+			}
+			va.Write(da[:k])
+			da = da[k:]
+			k = 5
+			if k > len(db) {
+				k = len(db)
+			}
+			vb.Write(db[:k])
+			db = db[k:]
+		}
+		res := func(err error) string {
+			if err != nil {
+				return "reject"
+			}
+			return "accept"
+		}
+		rb := res(vb.Close())
+		ra := res(va.Close())
+		return ra + " " + rb
+	}
 	ops["hparsed"] = func(a []string) string {
 		var fh control.FileHash
 		var err error
